@@ -352,9 +352,13 @@ class IntervalTier(textgrid_tier.TextgridTier):
                 if interval.end <= start:
                     newEntryList.append(interval)
                 elif interval.start >= end:
+                    # start + (t - end) rather than t - (end - start): an entry
+                    # beginning exactly at /end/ must land exactly on /start/
                     newEntryList.append(
                         Interval(
-                            interval.start - diff, interval.end - diff, interval.label
+                            start + (interval.start - end),
+                            start + (interval.end - end),
+                            interval.label,
                         )
                     )
 
